@@ -104,6 +104,7 @@ def run(ctx):
     sep_pool = [x.decode() for x in SEPS]
     trail_pool = ["x", "GET /a", "TYPE @t", "}", "]", "200", "\"a\"", "{}", "URL /x\n  Path\n", "@t", ",", ":", "e1", "-",
                   "x\n", "x\nGET /a", "x\r\n\r\ny", "x y\n", "x//y", "x/*c*/", "x #c\n", "xyz\n{}", "]\n", "}\n\n"]
+    slash_pool = ["/cats/{id}", "/abc/", "/x", "/cats\nGET /dogs"]      # (// x or /* x */ on a following line still annotates a value that admits annotations)
     sl, smeta = [], []
     for _ in range(60 if quick else 3000):
         w = J.rand_rule_schema(rng, rng.randint(0, 3))
@@ -118,7 +119,7 @@ def run(ctx):
             pure_object = annot_tail is not None and annot_tail.startswith("{") and annot_tail.endswith("}") and annot_tail.count("{") == annot_tail.count("}") and '"' not in annot_tail
             if annot_tail is not None and not pure_object and "\n" not in sep and "\r" not in sep:
                 continue          # a note runs to the end of the line: only a line break ends the schema
-            t = rng.choice(trail_pool)
+            t = rng.choice(trail_pool + (slash_pool if ("\n" in sep or "\r" in sep) and annot_tail is None else []))
             if pure_object and "\n" not in sep and "\r" not in sep and t[:1] in "-#/":
                 continue          # after the closing bracket of an inline annotation object a note, a comment or another annotation may still follow on the line
             sl.append(json.dumps({"schema": stext + sep + t, "ops": [["len"]]}))
@@ -132,13 +133,13 @@ def run(ctx):
             ctx.report("schema Len(%r + %r + %r) = %s, the schema ends at %s" % (stext[-50:], sep, t[:15], r, want), "schemalen:" + stext + sep + t, info, case=info)
     el, emeta = [], []
     for _ in range(60 if quick else 3000):
-        vals = rng.sample(E18.VALUES, rng.randint(1, 5))
+        vals = E18.sample_values(rng, rng.randint(1, 5))
         etext = E18.enum_text(rng, vals)[0]
         for _ in range(4):
             sep = rng.choice(sep_pool)
             if "//" in etext.split("\n")[-1] and "\n" not in sep and "\r" not in sep:
                 continue
-            t = rng.choice(trail_pool)
+            t = rng.choice(trail_pool + (["/cats/{id}", "/abc/", "/x"] if ("\n" in sep or "\r" in sep) and "//" not in etext.split("\n")[-1] else []))
             el.append(json.dumps({"text": etext + sep + t}))
             emeta.append((etext, sep, t))
     for (etext, sep, t), o in zip(emeta, vc.impl_parallel(["enumrule"], el)):
